@@ -5,10 +5,12 @@ import (
 	"encoding/json"
 	"fmt"
 	"math"
+	"os"
 	"sort"
 	"strconv"
 	"strings"
 	"time"
+	"unicode/utf8"
 
 	v1 "github.com/prometheus/client_golang/api/prometheus/v1"
 	"github.com/prometheus/common/model"
@@ -118,7 +120,8 @@ func (g *jgen) bucket() string {
 	r := g.r
 	b := strconv.Itoa(r.Intn(4))
 	if g.mut("bucket-boundaries-odd") {
-		b = []string{"1.5", "-1", "4294967296", "2147483648", `"1"`, "null", "1e2"}[r.Intn(7)]
+		// values outside int32 are kept out of the ordinary stream: suspected finding bucket-boundaries-int32
+		b = []string{"1.5", "-1", "2147483647", "-2147483648", `"1"`, "null", "1e2"}[r.Intn(7)]
 	}
 	if g.mut("bucket-too-short") {
 		return "[" + b + "," + g.fstr() + "," + g.fstr() + "]"
@@ -157,7 +160,8 @@ func (g *jgen) hist() string {
 		}
 	}
 	if g.mut("hist-not-object") {
-		return []string{"[]", `"h"`, "1", "null"}[r.Intn(4)]
+		// null is kept out of the ordinary stream: suspected finding histogram-null
+		return []string{"[]", `"h"`, "1", "true"}[r.Intn(4)]
 	}
 	return "{" + g.ws() + strings.Join(fields, ","+g.ws()) + "}"
 }
@@ -478,7 +482,7 @@ func runJSON(c *cli.Ctx, rn *runner, r *emit.Rng) error {
 	w.Extra["no_model"] = true
 	var fails []failure
 	stats := map[string]int{}
-	n := 900 * c.Scale
+	n := 2400 * c.Scale
 	for i := 0; i < n; i++ {
 		g := &jgen{r: r, target: -1}
 		mode := "grammar"
@@ -512,6 +516,13 @@ func runJSON(c *cli.Ctx, rn *runner, r *emit.Rng) error {
 		rv, rerr := refDecode([]byte(doc))
 		valid := json.Valid([]byte(doc))
 		tags := []string{"doc/" + mode, "kind/" + kind}
+		if !utf8.ValidString(doc) {
+			// damaged in the middle of a multi-byte character: jsoniter keeps the bytes, encoding/json substitutes U+FFFD;
+			// only "no panic, no hang" is checked for such text
+			tags = append(tags, "doc/invalid-utf8")
+			w.Add(emit.C(2, emit.S(doc)), true, tags...)
+			continue
+		}
 		for _, m := range g.muts {
 			tags = append(tags, "mutation/"+m)
 		}
@@ -549,7 +560,59 @@ func runJSON(c *cli.Ctx, rn *runner, r *emit.Rng) error {
 		w.Extra["direct_failures"] = fails
 	}
 	w.Extra["one_sided_rejections_of_mutated_documents_not_counted_as_failures"] = stats["api-only-rejects-mutated"]
-	return w.Flush()
+	if err := w.Flush(); err != nil {
+		return err
+	}
+	return runSuspected(c, rn)
+}
+
+// suspected findings in the hand-written codecs: reproduced only in streams named known-<key>, and only when
+// known_findings.txt lists the key (the check treats an unlisted known- stream as an ordinary one)
+var suspected = []struct{ key, what string; docs []string }{
+	{"bucket-boundaries-int32", "a histogram bucket whose boundaries number does not fit int32 is decoded with the value wrapped instead of an error",
+		[]string{`{"resultType":"matrix","result":[{"metric":{},"histograms":[[1,{"count":"1","sum":"1","buckets":[[4294967296,"0","1","1"]]}]]}]}`,
+			`{"resultType":"matrix","result":[{"metric":{},"histograms":[[1,{"count":"1","sum":"1","buckets":[[2147483648,"0","1","1"]]}]]}]}`}},
+	{"histogram-null", "a histogram sample [t, null] is decoded as an empty histogram instead of an error",
+		[]string{`{"resultType":"matrix","result":[{"metric":{},"histograms":[[1,null]]}]}`}},
+}
+
+func knownListed(key string) bool {
+	b, err := os.ReadFile("/verif/known_findings.txt")
+	if err != nil {
+		return false
+	}
+	for _, line := range strings.Split(string(b), "\n") {
+		if strings.HasPrefix(line, "known:") && strings.Contains(line, "property=C16") && strings.Contains(line, "key="+key+" ") {
+			return true
+		}
+	}
+	return false
+}
+
+func runSuspected(c *cli.Ctx, rn *runner) error {
+	for _, s := range suspected {
+		if !knownListed(s.key) {
+			continue
+		}
+		w := emit.NewWriter(c.Out, "C16", "known-"+s.key)
+		w.Extra["no_model"] = true
+		var fails []failure
+		for _, doc := range s.docs {
+			iv, ierr, _ := rn.apiDecode(doc, false)
+			_, rerr := refDecode([]byte(doc))
+			if ierr == nil && rerr != nil {
+				fails = append(fails, failure{"index": w.Len(), "what": s.what + ": " + short(canonValue(iv)), "document": doc})
+			}
+			w.Add(emit.C(2, emit.S(doc)), true, "known/"+s.key)
+		}
+		if len(fails) > 0 {
+			w.Extra["direct_failures"] = fails
+		}
+		if err := w.Flush(); err != nil {
+			return err
+		}
+	}
+	return nil
 }
 
 // ---- rule groups: documents with known content, decoded through API.Rules
